@@ -385,7 +385,7 @@ func c06Configs(tier string) []*xplore.Config {
 	}
 	var cfs []cf
 	if tier == "thorough" {
-		cfs = []cf{{4, 6, 2, 7, 40}, {6, 4, 2, 6, 40}, {4, 6, 3, 5, 40}, {6, 4, 3, 5, 30}, {4, 4, 2, 6, 40}}
+		cfs = []cf{{4, 6, 2, 6, 40}, {6, 4, 2, 6, 40}, {4, 6, 3, 5, 12}, {6, 4, 3, 4, 0}, {4, 4, 2, 6, 40}}
 	} else {
 		cfs = []cf{{4, 6, 2, 5, 30}, {6, 4, 2, 5, 30}, {4, 6, 3, 4, 0}}
 	}
